@@ -8,6 +8,7 @@
 from __future__ import annotations
 
 import collections
+import itertools
 import logging
 import operator
 import sys
@@ -453,7 +454,11 @@ class HelicityAmplitudeBuilder:
 
         amplitude = self.config.spin_alignment.formulate_amplitude(self.reaction)
         spin_projections = collect_spin_projections(self.reaction)
-        return PoolSum(sp.Abs(amplitude) ** 2, *spin_projections.items())
+        intensity = PoolSum(sp.Abs(amplitude) ** 2, *spin_projections.items())
+        for symbol in _collect_summed_amplitude_symbols(intensity):
+            # combinations of spin projections for which there is no transition
+            self.__ingredients.amplitudes.setdefault(symbol, sp.S.Zero)
+        return intensity
 
     def __register_amplitudes(self, transition_group: list[StateTransition]) -> None:
         transition_by_topology = group_by_topology(transition_group)
@@ -577,6 +582,27 @@ class HelicityAmplitudeBuilder:
         if prefactor != 1.0:
             return sp.Rational(prefactor)
         return None
+
+
+def _collect_summed_amplitude_symbols(
+    expr: sp.Basic, pools: dict[sp.Symbol, tuple[sp.Basic, ...]] | None = None
+) -> list[sp.Indexed]:
+    """Collect the amplitude symbols that the `PoolSum` instances in an intensity run over."""
+    if pools is None:
+        pools = {}
+    if isinstance(expr, PoolSum):
+        pools = {**pools, **dict(expr.indices)}
+        return _collect_summed_amplitude_symbols(expr.expression, pools)
+    if isinstance(expr, sp.Indexed):
+        indices = [s for s in sorted(expr.free_symbols, key=str) if s in pools]
+        return [
+            expr.xreplace(dict(zip(indices, values)))  # type: ignore[misc]
+            for values in itertools.product(*(pools[s] for s in indices))
+        ]
+    symbols: list[sp.Indexed] = []
+    for arg in expr.args:
+        symbols.extend(_collect_summed_amplitude_symbols(arg, pools))
+    return symbols
 
 
 def _perform_combinatorics(
